@@ -42,6 +42,11 @@ var props = map[string]propSpec{
 	"C07": {"C07", []string{"empty", "reset"}, "", nil},
 	"C08": {"C08", []string{"echo"}, "", nil},
 	"C09": {"C09", []string{"refresh"}, "", nil},
+	"C10": {"C10", []string{"genflags"}, "", nil},
+	"C12": {"C12", []string{"genselect"}, "", nil},
+	"C14": {"C14", []string{"gendet"}, "", nil},
+	"C16": {"C16", []string{"genconfig"}, "", nil},
+	"C18": {"C18", []string{"genwhole"}, "", nil},
 	"C20": {"C20", []string{"empty"}, "", nil},
 }
 
@@ -189,6 +194,7 @@ func verdict(p propSpec, tier string, seed int64, reps []*FamilyReport, known kn
 	evals, distinct, lines, behs := 0, 0, 0, 0
 	var states, gen int64
 	drift := 0
+	altRuns := 0
 	var samples []json.RawMessage
 	modelViol := map[string]int{}
 	unexplored := []string{}
@@ -202,6 +208,7 @@ func verdict(p propSpec, tier string, seed int64, reps []*FamilyReport, known kn
 		states += r.MCStates
 		gen += r.MCGenerated
 		drift += len(r.Drift)
+		altRuns += r.AltRuns
 		samples = append(samples, r.Samples...)
 		for k, n := range r.ModelViol {
 			if strings.HasPrefix(k, prefix) {
@@ -295,7 +302,7 @@ func verdict(p propSpec, tier string, seed int64, reps []*FamilyReport, known kn
 			states: states, transitions: gen, traces: behs, evals: evals, distinct: distinct, samples: samples, wall: wall,
 			violations: nviol, extra: map[string]interface{}{
 				"trace_lines_accepted": lines, "drift": drift, "known_findings_hit": knownHits,
-				"model_level_contract_failures": modelViol, "unexplored": unexplored, "families": p.Families, "from_cache": cached,
+				"model_level_contract_failures": modelViol, "unexplored": unexplored, "families": p.Families, "from_cache": cached, "alternative_renderings_run": altRuns,
 			}})
 	}
 	return exit
